@@ -192,6 +192,10 @@ class Path:
 
 
 PURE_EXT_PREFIXES = ('math.', 'numpy.')
+ALLOC_EXT = {'numpy.ndarray', 'numpy.zeros', 'numpy.ones', 'numpy.empty', 'numpy.full', 'numpy.array', 'numpy.copy',
+             'numpy.asarray', 'numpy.arange', 'numpy.linspace', 'numpy.zeros_like', 'numpy.ones_like',
+             'numpy.empty_like', 'numpy.full_like', 'numpy.meshgrid', 'numpy.eye', 'numpy.identity',
+             'numpy.concatenate', 'numpy.stack', 'numpy.vstack', 'numpy.hstack', 'numpy.tile', 'numpy.repeat'}
 IDENTITY_CALLS = {'builtins.float', 'numpy.double', 'numpy.float64', 'numpy.float32'}
 POW_CALLS = {'builtins.pow', 'math.pow', 'numpy.power', 'numpy.float_power'}
 ABS_CALLS = {'builtins.abs', 'math.fabs', 'numpy.abs', 'numpy.fabs', 'numpy.absolute'}
@@ -1122,7 +1126,8 @@ class Explorer:
         cname = internal[0].short if len(internal) == 1 else name
         occ = s.next_occ(('call', cname))
         res = atomv(('call', cname, tuple(key_of(a) for a in args), occ))
-        ev_ = s.emit('call', e, name=name, callee=internal[0] if len(internal) == 1 else None,
+        ext_dotted = self.ext_name(e, s, exts) if not internal else None
+        ev_ = s.emit('call', e, name=name, callee=internal[0] if len(internal) == 1 else ext_dotted,
                      callees=set(internal) | set(exts), recv=recv_for_call, args=args, kwargs=kwargs, result=res,
                      inlined=False, ext=not internal)
         self.havoc(s, internal, exts, recv_for_call, e)
@@ -1172,6 +1177,8 @@ class Explorer:
             return atomv(('len', key_of(args[0]), s.fver.get('[]', 0)))
         if dotted == 'builtins.print':
             return atomv(NONE)
+        if dotted in ALLOC_EXT:
+            return None         # a fresh object each time: handled as an opaque call with an occurrence id
         if dotted.startswith(PURE_EXT_PREFIXES) and not dotted.startswith('numpy.random') or \
                 dotted in ('builtins.int', 'builtins.round', 'builtins.str', 'builtins.bool', 'builtins.isinstance'):
             return atomv(('call', dotted, tuple(key_of(a) for a in args) +
